@@ -527,7 +527,7 @@ SPECS = {
                 a=lambda f: f.kind == "A" and f.audit == "C07",
                 k=lambda f: f.kind == "K" and f.op.startswith("reload")),
     "C08": dict(modules=["Bourse.Props.C08"],
-                a=lambda f: is_env(f) and f.kind == "A" and (f.audit == "C08" or (f.audit == "SH" and f.op == "step")),
+                a=lambda f: is_env(f) and f.kind == "A" and (f.audit in ("C08", "ORD") or (f.audit == "SH" and f.op == "step")),
                 k=lambda f: is_env(f) and f.kind == "K" and f.op == "step"),
     "C10": dict(modules=["Bourse.Props.C10"],
                 a=lambda f: is_env(f) and f.kind == "A" and (f.audit == "C10" or (f.audit == "SH" and f.op != "step")),
@@ -547,6 +547,6 @@ SPECS = {
                 a=lambda f: f.hkind in ("menv", "market") and f.kind == "A" and f.audit in ("C14", "SH"),
                 k=lambda f: f.hkind in ("menv", "market") and f.kind == "K"),
     "C15": dict(modules=["Bourse.Props.C15"],
-                a=lambda f: is_env(f) and f.kind == "A" and f.audit == "RNG",
+                a=lambda f: is_env(f) and f.kind == "A" and f.audit in ("RNG", "ORD"),
                 k=lambda f: is_env(f) and f.kind == "K" and "schedule" in f.fields),
 }
